@@ -335,7 +335,18 @@ func (s relayCliStream) MsgRecv(m srpc.Message) error {
 	return m.UnmarshalVT(b)
 }
 func (s relayCliStream) CloseSend() error { return nil }
-func (s relayCliStream) Close() error     { s.c.failConn(io.EOF); return nil }
+func (s relayCliStream) Close() error {
+	s.c.owner.mu.Lock()
+	linger := s.c.owner.linger
+	s.c.owner.mu.Unlock()
+	if linger {
+		// only the client side goes away
+		s.c.r2c.fail(io.EOF)
+		return nil
+	}
+	s.c.failConn(io.EOF)
+	return nil
+}
 func (s relayCliStream) Send(r *signaling_rpc.SessionRequest) error {
 	c := s.c
 	r = r.CloneVT()
@@ -466,6 +477,7 @@ type relayClient struct {
 	mu     sync.Mutex
 	conns  []*relayConn
 	refuse bool // Session() fails while set (peer stays detached)
+	linger bool // a stream closed by the client stays registered at the relay (the relay has not noticed yet)
 
 	dropReq  func(*signaling_rpc.SessionRequest) bool
 	dropResp func(*signaling_rpc.SessionResponse) bool
@@ -484,7 +496,12 @@ func (c *relayClient) Session(ctx context.Context) (signaling_rpc.SRPCSignaling_
 		c.mu.Unlock()
 		return nil, errStreamFailed
 	}
-	cctx, cancel := context.WithCancel(context.WithValue(ctx, pidKey{}, c.pid))
+	base := ctx
+	if c.linger {
+		// the relay side of the stream outlives the client side
+		base = context.Background()
+	}
+	cctx, cancel := context.WithCancel(context.WithValue(base, pidKey{}, c.pid))
 	conn := &relayConn{owner: c, id: len(c.conns), ctx: cctx, cancel: cancel,
 		c2r: newFifo[[]byte](), r2c: newFifo[[]byte]()}
 	c.conns = append(c.conns, conn)
@@ -500,6 +517,23 @@ func (c *relayClient) Session(ctx context.Context) (signaling_rpc.SRPCSignaling_
 		conn.failConn(err)
 	}()
 	return relayCliStream{conn}, nil
+}
+
+func (c *relayClient) setLinger(l bool) {
+	c.mu.Lock()
+	c.linger = l
+	c.mu.Unlock()
+}
+
+// killAll breaks every connection of this peer (both directions).
+func (c *relayClient) killAll() {
+	c.mu.Lock()
+	conns := append([]*relayConn(nil), c.conns...)
+	c.mu.Unlock()
+	for _, cn := range conns {
+		cn.setHold(false)
+		cn.failConn(errStreamFailed)
+	}
 }
 
 func (c *relayClient) setRefuse(r bool) {
